@@ -17,7 +17,18 @@ use syn::visit::Visit;
 
 #[derive(Deserialize, Default, Clone)]
 struct LoopSpec {
-    ord: usize,
+    #[serde(default)]
+    ord: Option<usize>,
+    /// name by which proof positions refer to this loop: `loop:@name:begin`
+    #[serde(default)]
+    name: Option<String>,
+    /// regex on the whitespace-free loop header; the first not yet claimed loop that matches is used
+    #[serde(default, rename = "match")]
+    matches: Option<String>,
+    /// if no loop matches: skip the invariants instead of reporting a lost anchor (used where the
+    /// absence of the loop is itself what the postcondition must catch, e.g. a deleted check)
+    #[serde(default)]
+    optional: bool,
     #[serde(default)]
     iter: Option<String>,
     #[serde(default)]
@@ -31,6 +42,8 @@ struct LoopSpec {
 struct ProofSpec {
     at: String,
     text: String,
+    #[serde(default)]
+    optional: bool,
 }
 
 #[derive(Deserialize, Default, Clone)]
@@ -81,6 +94,24 @@ struct ItemSpec {
     /// calls / macros / `?` / await / assignment, so evaluation order cannot matter
     #[serde(default)]
     bool_and: Vec<String>,
+    /// N6: name of the `&Context` variable: `let &Context { a, b, .. } = ctx;` → `let a = ctx_a(ctx); ...`
+    /// and `ctx.a` → `ctx_a(ctx)` (Context has private fields and a `Path` member; it stays opaque and
+    /// is read through one-line accessor functions)
+    #[serde(default)]
+    n6: Option<String>,
+    /// N9: constructor expressions of the opaque `Error` enum (`Error::V`, `Error::V(a)`, `Error::V { f: a }`)
+    /// → `pv_err_V(a..)`, one-line external_body helpers appended by unit `protocol_ctx`
+    #[serde(default)]
+    n9: bool,
+    /// N13: index expressions (by text) of type `Reg`: `v[r]` → `v[r.0 as usize]`
+    #[serde(default)]
+    reg_index: Vec<String>,
+    /// aliases for local variables of the real code: name -> regex with one capture group, evaluated on
+    /// the (normalised) item text. `$name` in spec / invariant / proof text is replaced by the captured
+    /// identifier; if the regex does not match, every annotation *line* mentioning `$name` is dropped
+    /// (so a renamed local keeps its invariants and a deleted mechanism loses them)
+    #[serde(default)]
+    alias: BTreeMap<String, String>,
     /// N4: names for tuple-pattern parameters, by parameter index ("2" -> "t1")
     #[serde(default)]
     arg_names: BTreeMap<String, String>,
@@ -320,6 +351,9 @@ impl<'ast, 't> Visit<'ast> for LoopCollector<'t> {
 // ---------------------------------------------------------------- normalisation rules
 
 struct Normaliser<'t> {
+    n9: bool,
+    n6: Option<String>,
+    reg_index: Vec<String>,
     bool_and: Vec<Regex>,
     n3_all: bool,
     n3_match: Vec<Regex>,
@@ -641,7 +675,90 @@ impl<'ast, 't> Visit<'ast> for Normaliser<'t> {
         self.try_n5(e);
         syn::visit::visit_expr_if(self, e);
     }
+    fn visit_expr_struct(&mut self, st: &'ast syn::ExprStruct) {
+        if self.n9 && (self.on)("N9") && st.path.segments.len() == 2 && st.path.segments[0].ident == "Error" && st.rest.is_none() {
+            let v = st.path.segments[1].ident.to_string();
+            let args: Vec<String> = st.fields.iter().map(|f| self.t(f.expr.span()).to_string()).collect();
+            let (s, e) = br(st.span());
+            self.push(s, e, format!("pv_err_{}({})", v, args.join(", ")), "N9");
+            return;
+        }
+        syn::visit::visit_expr_struct(self, st);
+    }
+    fn visit_expr_call(&mut self, c: &'ast syn::ExprCall) {
+        if self.n9 && (self.on)("N9") {
+            if let syn::Expr::Path(p) = &*c.func {
+                if p.qself.is_none() && p.path.segments.len() == 2 && p.path.segments[0].ident == "Error" {
+                    let v = p.path.segments[1].ident.to_string();
+                    let args: Vec<String> = c.args.iter().map(|a| self.t(a.span()).to_string()).collect();
+                    let (s, e) = br(c.span());
+                    self.push(s, e, format!("pv_err_{}({})", v, args.join(", ")), "N9");
+                    return;
+                }
+            }
+        }
+        syn::visit::visit_expr_call(self, c);
+    }
+    fn visit_expr_path(&mut self, p: &'ast syn::ExprPath) {
+        if self.n9 && (self.on)("N9") && p.qself.is_none() && p.path.segments.len() == 2 && p.path.segments[0].ident == "Error" {
+            let v = p.path.segments[1].ident.to_string();
+            // unit variants only (tuple variants used as functions, e.g. `.map_err(Error::X)`, are left alone)
+            if ["PartyDoesNotExist", "MissingOutputParties", "EmptyMsg"].contains(&v.as_str()) {
+                let (s, e) = br(p.span());
+                self.push(s, e, format!("pv_err_{}()", v), "N9");
+                return;
+            }
+        }
+        syn::visit::visit_expr_path(self, p);
+    }
+    fn visit_expr_index(&mut self, ix: &'ast syn::ExprIndex) {
+        if (self.on)("N13") {
+            let t = nows(self.t(ix.index.span()));
+            if self.reg_index.iter().any(|r| nows(r) == t) {
+                let (s, e) = br(ix.index.span());
+                let old = self.text[s..e].to_string();
+                self.push(s, e, format!("{}.0 as usize", old), "N13");
+            }
+        }
+        syn::visit::visit_expr_index(self, ix);
+    }
+    fn visit_expr_field(&mut self, f: &'ast syn::ExprField) {
+        if let (Some(cv), syn::Member::Named(id)) = (&self.n6, &f.member) {
+            if let syn::Expr::Path(p) = &*f.base {
+                if p.path.is_ident(cv.as_str()) && (self.on)("N6") {
+                    let (s, e) = br(f.span());
+                    self.push(s, e, format!("ctx_{}({})", id, cv), "N6");
+                    return;
+                }
+            }
+        }
+        syn::visit::visit_expr_field(self, f);
+    }
     fn visit_local(&mut self, l: &'ast syn::Local) {
+        // N6: `let &Context { a, b, .. } = ctx;`
+        if let (Some(cv), Some(init)) = (&self.n6, &l.init) {
+            if let (syn::Pat::Reference(rp), syn::Expr::Path(ip)) = (&l.pat, &*init.expr) {
+                if let syn::Pat::Struct(ps) = &*rp.pat {
+                    if ip.path.is_ident(cv.as_str()) && ps.path.is_ident("Context") && (self.on)("N6") {
+                        let mut out = String::new();
+                        let mut ok = true;
+                        for fp in &ps.fields {
+                            match (&fp.member, &*fp.pat) {
+                                (syn::Member::Named(id), syn::Pat::Ident(pi)) if pi.ident == *id && pi.subpat.is_none() => {
+                                    out.push_str(&format!("let {} = ctx_{}({}); ", id, id, cv));
+                                }
+                                _ => ok = false,
+                            }
+                        }
+                        if ok {
+                            let (s, e) = br(l.span());
+                            self.push(s, e, out, "N6");
+                            return;
+                        }
+                    }
+                }
+            }
+        }
         // `let V = try_join_all(..);` (not awaited): evaluate eagerly, remember V
         if let (syn::Pat::Ident(pi), Some(init)) = (&l.pat, &l.init) {
             if let syn::Expr::Call(c) = &*init.expr {
@@ -896,7 +1013,7 @@ fn main() {
             };
             for fp in &fns {
                 sig_edits(&text, fp, &on, &it.arg_names, &mut edits);
-                let mut nz = Normaliser { bool_and: it.bool_and.iter().filter_map(|r| Regex::new(r).ok()).collect(), n3_all: it.n3.as_deref() == Some("all"), n3_match: it.n3_match.iter().filter_map(|r| Regex::new(r).ok()).collect(), text: &text, edits: vec![], on: &on, eager_futs: vec![] };
+                let mut nz = Normaliser { n9: it.n9, n6: it.n6.clone(), reg_index: it.reg_index.clone(), bool_and: it.bool_and.iter().filter_map(|r| Regex::new(r).ok()).collect(), n3_all: it.n3.as_deref() == Some("all"), n3_match: it.n3_match.iter().filter_map(|r| Regex::new(r).ok()).collect(), text: &text, edits: vec![], on: &on, eager_futs: vec![] };
                 nz.visit_block(fp.block);
                 edits.extend(nz.edits);
                 let _ = fp.whole;
@@ -967,6 +1084,52 @@ fn main() {
         }
         let Some(fp) = fn_parts(&f) else { continue };
         let mut ins_lines = 0usize;
+        // resolve aliases on the item text
+        let item_text = &text[fp.whole.0..fp.whole.1];
+        let mut alias_val: BTreeMap<String, Option<String>> = BTreeMap::new();
+        for (name, rx) in &it.alias {
+            let re = Regex::new(rx).unwrap_or_else(|e| fail(&job.report, Report::default(), format!("bad alias regex {}: {}", rx, e)));
+            alias_val.insert(name.clone(), re.captures(item_text).and_then(|c| c.get(1)).map(|m| m.as_str().to_string()));
+        }
+        let subst_alias = |t: &str| -> String {
+            if alias_val.is_empty() {
+                return t.to_string();
+            }
+            let mut out = String::new();
+            for line in t.lines() {
+                let mut l = line.to_string();
+                let mut drop = false;
+                for (name, val) in &alias_val {
+                    let key = format!("${}", name);
+                    if l.contains(&key) {
+                        match val {
+                            Some(v) => l = l.replace(&key, v),
+                            None => drop = true,
+                        }
+                    }
+                }
+                if !drop {
+                    out.push_str(&l);
+                    out.push('\n');
+                }
+            }
+            out
+        };
+        let it = &{
+            let mut it2 = it.clone();
+            it2.spec = subst_alias(&it.spec);
+            for l in it2.loops.iter_mut() {
+                l.inv = subst_alias(&l.inv);
+                // an `invariant` header left without clauses is removed
+                if l.inv.trim() == "invariant" {
+                    l.inv = String::new();
+                }
+            }
+            for p in it2.proofs.iter_mut() {
+                p.text = subst_alias(&p.text);
+            }
+            it2
+        };
         // attributes
         if !it.attrs.is_empty() {
             let (s, _) = fp.whole;
@@ -995,13 +1158,29 @@ fn main() {
                 fail(&job.report, rep, format!("lost anchor: `{}` has {} loops after normalisation, unit expects {}", it.path, lc.loops.len(), n));
             }
         }
+        let mut claimed: Vec<usize> = vec![];
+        let mut loop_names: BTreeMap<String, usize> = BTreeMap::new();
         for ls in &it.loops {
-            let Some(li) = lc.loops.get(ls.ord) else {
-                fail(&job.report, rep, format!("lost anchor: `{}` has no loop #{}", it.path, ls.ord));
+            let found: Option<usize> = if let Some(rx) = &ls.matches {
+                let re = Regex::new(rx).unwrap_or_else(|e| fail(&job.report, Report::default(), format!("bad regex {}: {}", rx, e)));
+                (0..lc.loops.len()).find(|k| !claimed.contains(k) && re.is_match(&lc.loops[*k].header))
+            } else {
+                ls.ord.filter(|o| *o < lc.loops.len())
             };
+            let Some(k) = found else {
+                if ls.optional {
+                    continue;
+                }
+                fail(&job.report, rep, format!("lost anchor: `{}` has no loop {:?}/{:?}", it.path, ls.ord, ls.matches));
+            };
+            claimed.push(k);
+            if let Some(nm) = &ls.name {
+                loop_names.insert(nm.clone(), k);
+            }
+            let li = &lc.loops[k];
             if let Some(rx) = &ls.expect {
                 if !Regex::new(rx).map(|r| r.is_match(&li.header)).unwrap_or(false) {
-                    fail(&job.report, rep, format!("lost anchor: loop #{} of `{}` has header `{}`, expected /{}/", ls.ord, it.path, li.header, rx));
+                    fail(&job.report, rep, format!("lost anchor: loop #{} of `{}` has header `{}`, expected /{}/", k, it.path, li.header, rx));
                 }
             }
             if let (Some(name), Some((es, _))) = (&ls.iter, li.expr) {
@@ -1027,7 +1206,20 @@ fn main() {
                 }
             } else if let Some(r) = at.strip_prefix("loop:") {
                 let mut sp = r.split(':');
-                let ord: usize = sp.next().and_then(|x| x.parse().ok()).unwrap_or(usize::MAX);
+                let tok = sp.next().unwrap_or("");
+                let ord: usize = if let Some(nm) = tok.strip_prefix('@') {
+                    match loop_names.get(nm) {
+                        Some(k) => *k,
+                        None => {
+                            if ps.optional || it.loops.iter().any(|l| l.name.as_deref() == Some(nm) && l.optional) {
+                                continue;
+                            }
+                            fail(&job.report, rep, format!("lost anchor: `{}` has no loop named {} (proof)", it.path, nm));
+                        }
+                    }
+                } else {
+                    tok.parse().unwrap_or(usize::MAX)
+                };
                 let wh = sp.next().unwrap_or("begin");
                 let Some(li) = lc.loops.get(ord) else {
                     fail(&job.report, rep, format!("lost anchor: `{}` has no loop #{} (proof)", it.path, ord));
@@ -1063,6 +1255,9 @@ fn main() {
                 // innermost = smallest span
                 sf.hits.sort_by_key(|(a, b)| b - a);
                 let Some((a, b)) = sf.hits.first().copied() else {
+                    if ps.optional {
+                        continue;
+                    }
                     fail(&job.report, rep, format!("lost anchor: no statement of `{}` matches /{}/", it.path, rx));
                 };
                 if before {
